@@ -1517,6 +1517,7 @@ func (interp *Interpreter) cfg(root *node, sc *scope, importPath, pkgName string
 			cond, body := n.child[0], n.child[1]
 			if !isBool(cond.typ) {
 				err = cond.cfgErrorf("non-bool used as for condition")
+				break
 			}
 			if cond.rval.IsValid() {
 				// Condition is known at compile time, bypass test.
@@ -1536,6 +1537,7 @@ func (interp *Interpreter) cfg(root *node, sc *scope, importPath, pkgName string
 			init, cond, body := n.child[0], n.child[1], n.child[2]
 			if !isBool(cond.typ) {
 				err = cond.cfgErrorf("non-bool used as for condition")
+				break
 			}
 			n.start = init.start
 			if cond.rval.IsValid() {
@@ -1565,6 +1567,7 @@ func (interp *Interpreter) cfg(root *node, sc *scope, importPath, pkgName string
 			cond, post, body := n.child[0], n.child[1], n.child[2]
 			if !isBool(cond.typ) {
 				err = cond.cfgErrorf("non-bool used as for condition")
+				break
 			}
 			if cond.rval.IsValid() {
 				// Condition is known at compile time, bypass test.
@@ -1593,6 +1596,7 @@ func (interp *Interpreter) cfg(root *node, sc *scope, importPath, pkgName string
 			init, cond, post, body := n.child[0], n.child[1], n.child[2], n.child[3]
 			if !isBool(cond.typ) {
 				err = cond.cfgErrorf("non-bool used as for condition")
+				break
 			}
 			n.start = init.start
 			body.start = body.child[0] // loopvar
@@ -1691,6 +1695,7 @@ func (interp *Interpreter) cfg(root *node, sc *scope, importPath, pkgName string
 			cond, tbody := n.child[0], n.child[1]
 			if !isBool(cond.typ) {
 				err = cond.cfgErrorf("non-bool used as if condition")
+				break
 			}
 			if cond.rval.IsValid() {
 				// Condition is known at compile time, bypass test.
@@ -1709,6 +1714,7 @@ func (interp *Interpreter) cfg(root *node, sc *scope, importPath, pkgName string
 			cond, tbody, fbody := n.child[0], n.child[1], n.child[2]
 			if !isBool(cond.typ) {
 				err = cond.cfgErrorf("non-bool used as if condition")
+				break
 			}
 			if cond.rval.IsValid() {
 				// Condition is known at compile time, bypass test and the useless branch.
@@ -1730,6 +1736,7 @@ func (interp *Interpreter) cfg(root *node, sc *scope, importPath, pkgName string
 			init, cond, tbody := n.child[0], n.child[1], n.child[2]
 			if !isBool(cond.typ) {
 				err = cond.cfgErrorf("non-bool used as if condition")
+				break
 			}
 			n.start = init.start
 			if cond.rval.IsValid() {
@@ -1751,6 +1758,7 @@ func (interp *Interpreter) cfg(root *node, sc *scope, importPath, pkgName string
 			init, cond, tbody, fbody := n.child[0], n.child[1], n.child[2], n.child[3]
 			if !isBool(cond.typ) {
 				err = cond.cfgErrorf("non-bool used as if condition")
+				break
 			}
 			n.start = init.start
 			if cond.rval.IsValid() {
